@@ -440,6 +440,107 @@ impl C07 {
     }
 }
 
+
+/// single-layer decoders (header structs and slice types): each has its own copy of the error
+/// construction, and only some of them are reached through the whole-packet entry points
+mod singles {
+    use crate::neutral::NErr;
+    use crate::observe as ob;
+    use crate::refmodel::pkt::Start;
+    use etherparse::*;
+
+    pub struct Single {
+        pub name: &'static str,
+        /// generator of the HEADERS table to take the input from
+        pub gen: &'static str,
+        pub start: Start,
+        pub run: fn(&[u8]) -> Option<NErr>,
+    }
+
+    macro_rules! len_only {
+        ($e:expr) => {
+            $e.err().map(|e| ob::nlen(&e))
+        };
+    }
+
+    pub const SINGLES: &[Single] = &[
+        Single { name: "Ethernet2Header::from_slice", gen: "Ethernet2Header", start: Start::Eth, run: |b| len_only!(Ethernet2Header::from_slice(b)) },
+        Single { name: "Ethernet2HeaderSlice::from_slice", gen: "Ethernet2Header", start: Start::Eth, run: |b| len_only!(Ethernet2HeaderSlice::from_slice(b)) },
+        Single { name: "Ethernet2Slice::from_slice_without_fcs", gen: "Ethernet2Header", start: Start::Eth, run: |b| len_only!(Ethernet2Slice::from_slice_without_fcs(b)) },
+        Single { name: "LinuxSllHeader::from_slice", gen: "LinuxSllHeader", start: Start::Sll, run: |b| LinuxSllHeader::from_slice(b).err().map(|e| ob::n_sll_slice_error(&e)) },
+        Single { name: "LinuxSllHeaderSlice::from_slice", gen: "LinuxSllHeader", start: Start::Sll, run: |b| LinuxSllHeaderSlice::from_slice(b).err().map(|e| ob::n_sll_slice_error(&e)) },
+        Single { name: "LinuxSllSlice::from_slice", gen: "LinuxSllHeader", start: Start::Sll, run: |b| LinuxSllSlice::from_slice(b).err().map(|e| ob::n_sll_slice_error(&e)) },
+        Single { name: "SingleVlanHeader::from_slice", gen: "SingleVlanHeader", start: Start::EtherType(0x8100), run: |b| len_only!(SingleVlanHeader::from_slice(b)) },
+        Single { name: "SingleVlanHeaderSlice::from_slice", gen: "SingleVlanHeader", start: Start::EtherType(0x8100), run: |b| len_only!(SingleVlanHeaderSlice::from_slice(b)) },
+        Single { name: "SingleVlanSlice::from_slice", gen: "SingleVlanHeader", start: Start::EtherType(0x8100), run: |b| len_only!(SingleVlanSlice::from_slice(b)) },
+        Single { name: "MacsecHeader::from_slice", gen: "MacsecHeader", start: Start::EtherType(0x88e5), run: |b| MacsecHeader::from_slice(b).err().map(|e| ob::n_macsec_slice_error(&e)) },
+        Single { name: "MacsecHeaderSlice::from_slice", gen: "MacsecHeader", start: Start::EtherType(0x88e5), run: |b| MacsecHeaderSlice::from_slice(b).err().map(|e| ob::n_macsec_slice_error(&e)) },
+        Single { name: "MacsecSlice::from_slice", gen: "MacsecHeader", start: Start::EtherType(0x88e5), run: |b| MacsecSlice::from_slice(b).err().map(|e| ob::n_macsec_slice_error(&e)) },
+        Single { name: "LaxMacsecSlice::from_slice", gen: "MacsecHeader", start: Start::EtherType(0x88e5), run: |b| LaxMacsecSlice::from_slice(b).err().map(|e| ob::n_macsec_slice_error(&e)) },
+        Single { name: "ArpPacket::from_slice", gen: "ArpPacket", start: Start::Arp, run: |b| len_only!(ArpPacket::from_slice(b)) },
+        Single { name: "ArpPacketSlice::from_slice", gen: "ArpPacket", start: Start::Arp, run: |b| len_only!(ArpPacketSlice::from_slice(b)) },
+        Single { name: "Ipv4Header::from_slice", gen: "Ipv4Header", start: Start::Ipv4, run: |b| Ipv4Header::from_slice(b).err().map(|e| ob::n_ipv4_header_slice_error(&e)) },
+        Single { name: "Ipv4HeaderSlice::from_slice", gen: "Ipv4Header", start: Start::Ipv4, run: |b| Ipv4HeaderSlice::from_slice(b).err().map(|e| ob::n_ipv4_header_slice_error(&e)) },
+        Single { name: "Ipv6Header::from_slice", gen: "Ipv6Header", start: Start::Ipv6, run: |b| Ipv6Header::from_slice(b).err().map(|e| ob::n_ipv6_header_slice_error(&e)) },
+        Single { name: "Ipv6HeaderSlice::from_slice", gen: "Ipv6Header", start: Start::Ipv6, run: |b| Ipv6HeaderSlice::from_slice(b).err().map(|e| ob::n_ipv6_header_slice_error(&e)) },
+        Single { name: "IpAuthHeader::from_slice", gen: "IpAuthHeader", start: Start::Ext(51), run: |b| IpAuthHeader::from_slice(b).err().map(|e| ob::n_auth_slice_error_v4(&e)) },
+        Single { name: "IpAuthHeaderSlice::from_slice", gen: "IpAuthHeader", start: Start::Ext(51), run: |b| IpAuthHeaderSlice::from_slice(b).err().map(|e| ob::n_auth_slice_error_v4(&e)) },
+        Single { name: "Ipv6RawExtHeader::from_slice", gen: "Ipv6RawExtHeader", start: Start::Ext(60), run: |b| len_only!(Ipv6RawExtHeader::from_slice(b)) },
+        Single { name: "Ipv6RawExtHeaderSlice::from_slice", gen: "Ipv6RawExtHeader", start: Start::Ext(60), run: |b| len_only!(Ipv6RawExtHeaderSlice::from_slice(b)) },
+        Single { name: "Ipv6FragmentHeader::from_slice", gen: "Ipv6FragmentHeader", start: Start::Ext(44), run: |b| len_only!(Ipv6FragmentHeader::from_slice(b)) },
+        Single { name: "Ipv6FragmentHeaderSlice::from_slice", gen: "Ipv6FragmentHeader", start: Start::Ext(44), run: |b| len_only!(Ipv6FragmentHeaderSlice::from_slice(b)) },
+        Single { name: "UdpHeader::from_slice", gen: "UdpHeader", start: Start::Transport(17), run: |b| len_only!(UdpHeader::from_slice(b)) },
+        Single { name: "UdpHeaderSlice::from_slice", gen: "UdpHeader", start: Start::Transport(17), run: |b| len_only!(UdpHeaderSlice::from_slice(b)) },
+        Single { name: "UdpSlice::from_slice", gen: "UdpHeader", start: Start::Transport(17), run: |b| len_only!(UdpSlice::from_slice(b)) },
+        Single { name: "UdpSlice::from_slice_lax", gen: "UdpHeader", start: Start::Transport(17), run: |b| len_only!(UdpSlice::from_slice_lax(b)) },
+        Single { name: "TcpHeader::from_slice", gen: "TcpHeader", start: Start::Transport(6), run: |b| TcpHeader::from_slice(b).err().map(|e| ob::n_tcp_slice_error(&e)) },
+        Single { name: "TcpHeaderSlice::from_slice", gen: "TcpHeader", start: Start::Transport(6), run: |b| TcpHeaderSlice::from_slice(b).err().map(|e| ob::n_tcp_slice_error(&e)) },
+        Single { name: "TcpSlice::from_slice", gen: "TcpHeader", start: Start::Transport(6), run: |b| TcpSlice::from_slice(b).err().map(|e| ob::n_tcp_slice_error(&e)) },
+        Single { name: "Icmpv4Header::from_slice", gen: "Icmpv4Header", start: Start::Transport(1), run: |b| len_only!(Icmpv4Header::from_slice(b)) },
+        Single { name: "Icmpv4Slice::from_slice", gen: "Icmpv4Header", start: Start::Transport(1), run: |b| len_only!(Icmpv4Slice::from_slice(b)) },
+        Single { name: "Icmpv6Header::from_slice", gen: "Icmpv6Header", start: Start::Transport(58), run: |b| len_only!(Icmpv6Header::from_slice(b)) },
+        Single { name: "Icmpv6Slice::from_slice", gen: "Icmpv6Header", start: Start::Transport(58), run: |b| len_only!(Icmpv6Slice::from_slice(b)) },
+    ];
+}
+
+impl C07 {
+    fn single(&mut self, rep: &mut Report, rng: &mut Prng) {
+        let si = rng.usize_below(singles::SINGLES.len());
+        let s = &singles::SINGLES[si];
+        let t = match crate::observe::single::HEADERS.iter().find(|t| t.name == s.gen) {
+            Some(t) => t,
+            None => {
+                rep.selfcheck_fail(format!("no generator {}", s.gen));
+                return;
+            }
+        };
+        let mut bytes = (t.gen)(rng);
+        // every truncation point matters for length errors
+        if rng.chance(1, 2) && !bytes.is_empty() {
+            bytes.truncate(rng.usize_below(bytes.len() + 1));
+        }
+        rep.evals += 1;
+        rep.count(&format!("entry.{}", s.name));
+        shell::progress_entry(700 + si as u64);
+        match shell::guarded(|| (s.run)(&bytes)) {
+            Ok(None) => rep.count("no_error"),
+            Ok(Some(e)) => {
+                let mode = if s.name.starts_with("Lax") || s.name.ends_with("_lax") { Mode::Lax } else { Mode::Strict };
+                let mut r = rdecode(&bytes, s.start, mode, ExtMode::Slice);
+                // only the first layer is decoded here: deeper faults are none of its business
+                if let Some(f) = &r.fault {
+                    if f.off > 0 {
+                        r.fault = None;
+                    }
+                }
+                judge_error(rep, s.name, &bytes, &r, &e, None);
+                rep.sig(&format!("{}|{}|{:?}", s.name, e.class(), r.fault.as_ref().map(|f| f.kind)));
+            }
+            Err(p) => note_abnormal(rep, s.name, &p),
+        }
+    }
+}
+
 impl Monitor for C07 {
     fn engines(&self, tier: Tier) -> Vec<(&'static str, u64)> {
         vec![
@@ -448,6 +549,8 @@ impl Monitor for C07 {
             ("iplevel", tier.pick(1500000, 150000000)),
             ("corpus", tier.pick(400_000, 8_000_000)),
             ("readers", tier.pick(1500000, 150000000)),
+            ("single", tier.pick(3000000, 300000000)),
+            ("convert", tier.pick(600000, 60000000)),
         ]
     }
 
@@ -495,6 +598,20 @@ impl Monitor for C07 {
                 }
             }
             "readers" => self.readers(rep, rng),
+            "single" => self.single(rep, rng),
+            "convert" => {
+                let mut o = GenOpts::hostile();
+                o.start = match rng.below(3) {
+                    0 => StartSel::Ip,
+                    1 => StartSel::Eth,
+                    _ => StartSel::Any,
+                };
+                let mut case = gen::gen_case(rng, &o);
+                if rng.chance(1, 3) && !case.bytes.is_empty() {
+                    case.bytes.truncate(rng.usize_below(case.bytes.len() + 1));
+                }
+                super::api::c07_convert(rep, rng, &case.bytes);
+            }
             "iplevel" => {
                 let mut o = GenOpts::hostile();
                 o.start = StartSel::Ip;
